@@ -102,8 +102,13 @@ def run(ctx: Ctx) -> None:
     if not ctx.thorough:
         g = g[:: 5]
     ctx.exhaustive = ctx.thorough
+    # deterministic corpus first: the connection is lost at every write of a response / while the end of an HTTP/2 body waits
+    wf = K.write_fault_corpus()
+    for c in wf:
+        ctx.count("write_fault", c["key"][0])
+    K.run_cases(ctx, wf, monitor)
     K.run_cases(ctx, g, monitor)
-    K.run_cases(ctx, gen(ctx, ctx.budget(330, 9000)), monitor)
+    K.run_cases(ctx, gen(ctx, ctx.budget(300, 9000)), monitor)
 
 
 def replay(ctx: Ctx, case: dict) -> None:
